@@ -123,7 +123,7 @@ fn c13_one(idx: u64, st: &mut Stats) {
         }
         // through the raw constructor for every URI, through every builder on the sub-product
         let t = vmc::explore::unrank(idx, &uri::radices());
-        let sub = (t[1] <= 2 || t[1] == 6) && t[3] <= 1 && t[4] <= 2 && t[5] <= 2;
+        let sub = (t[1] <= 2 || t[1] >= 6) && t[3] <= 1 && t[4] <= 2 && t[5] <= 2;
         let cons = constructors(&u);
         for (name, req) in cons.iter().take(if sub { cons.len() } else { 1 }) {
             let pu = printer_uri_of(req).ok_or_else(|| (format!("{}:missing", name), format!("{}: no printer-uri (uri syntax) in the request for {}", name, c.text)))?;
@@ -162,7 +162,7 @@ pub fn run_c13(ctx: &Ctx) -> ! {
     let mut rep = Report::new(
         ctx,
         "exploration",
-        "the complete D-uri product scheme{http,https,ipp,ipps} x user-info(6) x host(8: names, IPv4, bracketed IPv6 incl. zone) x port(7) x path(7) x query(5) = 54 880 target URIs, each through util::canonicalize_uri (+ idempotence) and IppRequestResponse::new, and a 4x3x8x2x3x3 sub-product through all 9 operation builders; the printer-uri value (in memory and as decoded from the encoded bytes by R1) is split by the string-level RFC 3986 splitter R3 and compared component-wise. distinct = URI index; non-trivial = accepted by http::Uri",
+        "the complete D-uri product scheme{http,https,ipp,ipps} x user-info(6) x host(8: names, IPv4, bracketed IPv6 incl. zone) x port(7) x path(7) x query(5) = 62 720 target URIs, each through util::canonicalize_uri (+ idempotence) and IppRequestResponse::new, and a 4x3x8x2x3x3 sub-product through all 9 operation builders; the printer-uri value (in memory and as decoded from the encoded bytes by R1) is split by the string-level RFC 3986 splitter R3 and compared component-wise. distinct = URI index; non-trivial = accepted by http::Uri",
     );
     rep.assume("a string http::Uri refuses to parse cannot be passed to the library and is outside the domain (counted in counters.rejected_by_http_uri)");
     if let Some(p) = &ctx.replay {
@@ -175,9 +175,24 @@ pub fn run_c13(ctx: &Ctx) -> ! {
         rep.absorb(st);
         rep.finish();
     }
-    for p in par_range(ctx.threads, uri::total(), 512, Stats::new, |st, i| c13_one(i, st)) {
-        rep.absorb(p);
+    // the oracle is history-independent, so any dependence of the mapping on what was mapped before is a
+    // violation; to find such dependence deterministically the product runs in ascending order, in descending
+    // order (one thread each) and then in parallel
+    let mut seq = Stats::new();
+    for i in 0..uri::total() {
+        c13_one(i, &mut seq);
     }
+    rep.section("ascending", seq);
+    let mut seq = Stats::new();
+    for i in (0..uri::total()).rev() {
+        c13_one(i, &mut seq);
+    }
+    rep.section("descending", seq);
+    let mut par = Stats::new();
+    for p in par_range(ctx.threads, uri::total(), 512, Stats::new, |st, i| c13_one(i, st)) {
+        par.merge(p);
+    }
+    rep.section("parallel", par);
     rep.finish()
 }
 
@@ -272,7 +287,7 @@ pub fn run_c14(ctx: &Ctx) -> ! {
     let mut rep = Report::new(
         ctx,
         "exploration",
-        "the complete D-uri product (54 880 target URIs, see C13) through the private URL mapper (cfg-guarded hook verif_transport_url); result split by the string-level splitter R3 and compared component-wise: ipp->http, ipps->https, http/https kept; port = given, else 631 for both ipp and ipps; host, user-info, path (\"\" = \"/\") and query unchanged. distinct = URI index; non-trivial = accepted by http::Uri",
+        "the complete D-uri product (62 720 target URIs, see C13) through the private URL mapper (cfg-guarded hook verif_transport_url); result split by the string-level splitter R3 and compared component-wise: ipp->http, ipps->https, http/https kept; port = given, else 631 for both ipp and ipps; host, user-info, path (\"\" = \"/\") and query unchanged. distinct = URI index; non-trivial = accepted by http::Uri",
     );
     rep.assume("hook verif_transport_url is a pure pass-through to ipp_uri_to_string (add-only, cfg(ipp_verif))");
     if let Some(p) = &ctx.replay {
@@ -285,9 +300,24 @@ pub fn run_c14(ctx: &Ctx) -> ! {
         rep.absorb(st);
         rep.finish();
     }
-    for p in par_range(ctx.threads, uri::total(), 512, Stats::new, |st, i| c14_one(i, st)) {
-        rep.absorb(p);
+    // the oracle is history-independent, so any dependence of the mapping on what was mapped before is a
+    // violation; to find such dependence deterministically the product runs in ascending order, in descending
+    // order (one thread each) and then in parallel
+    let mut seq = Stats::new();
+    for i in 0..uri::total() {
+        c14_one(i, &mut seq);
     }
+    rep.section("ascending", seq);
+    let mut seq = Stats::new();
+    for i in (0..uri::total()).rev() {
+        c14_one(i, &mut seq);
+    }
+    rep.section("descending", seq);
+    let mut par = Stats::new();
+    for p in par_range(ctx.threads, uri::total(), 512, Stats::new, |st, i| c14_one(i, st)) {
+        par.merge(p);
+    }
+    rep.section("parallel", par);
     rep.finish()
 }
 
